@@ -241,10 +241,13 @@ PROPS["C13"] = {
     "rules": [
         ("R-MODEL-JAC", rs2.rule_model_jac, {}),
         ("R-COVARIANCE", rs2.rule_covariance, {}),
+        # "σ² is the reduced χ²": ‖r_w‖² over the degrees of freedom N−(M+P) of the model counts
+        ("R-CHI2", _chi2, {}),
+        ("R-DOF-GUARD", _dof_guard, {}),
         ("R-VAR-SLICES", rs2.rule_var_slices, {}),
         ("R-CORRELATION", rs2.rule_correlation, {}),
     ],
-    "explanation": "Model-function Jacobian J = [eval | (d_idx Phi * c)_idx] with the left block copied to columns idx and the right block to idx+|left|; covariance normal form chi2_red * inv((W*J)^T (W*J)); "
+    "explanation": "Model-function Jacobian J = [eval | (d_idx Phi * c)_idx] with the left block copied to columns idx and the right block to idx+|left|; covariance normal form chi2_red * inv((W*J)^T (W*J)), chi2_red = |r_w|^2 / (N-(M+P)) with r_w = Y_w - W*Phi*c; "
                    "variance accessors slice diag(cov) at [0,|B|) and [|B|,|B|+|P|) with the count roles initialised from the matching model counts; correlation element (i,j) = cov(i,j)/sqrt(cov(i,i)*cov(j,j)) over the full square.",
     "not_decided": ["symmetry / non-negativity / |corr| <= 1 (numerics of try_inverse)"],
 }
